@@ -221,7 +221,15 @@ def hybrid_entry_facts(ctx, cq, fn, fb, sv, hv):
     pe = [n for n in body_nodes if isinstance(n, ast.Call) and isinstance(n.func, ast.Attribute) and n.func.attr == "extend" and norm(n.func.value) == "self.pieces"]
     if len(pe) == 1:
         v = norm(pe[0].args[0])
-        F["v1.pieces"] = Fact("extended with the hasher's v1 piece hashes" if v in ("%s.pieces" % hv, "piece") else "extend(%s)" % v, pe[0], fn)
+        ok = v == "%s.pieces" % hv
+        if not ok and isinstance(pe[0].args[0], ast.Name):
+            # `layer_hash, piece = result` inside `for result in hasher`: the second element of what the hasher yields
+            for what, payload in ctx.res.bindings(fn).get(v, []):
+                if what == "unpack" and payload[1] == 1 and isinstance(payload[0], ast.Name):
+                    src = ctx.res.bindings(fn).get(payload[0].id, [])
+                    if any(w == "iter" and norm(it) == hv for w, it in src):
+                        ok = True
+        F["v1.pieces"] = Fact("extended with the hasher's v1 piece hashes" if ok else "extend(%s)" % v, pe[0], fn)
     else:
         F["v1.pieces"] = und("expected one extension of self.pieces, found %d" % len(pe), fb, fn)
     return F
